@@ -3,8 +3,8 @@ from __future__ import annotations
 
 import ast as _ast
 
-from ..common import all_conds, conds_at, nshow, outer_field, paths
-from ..expr import C, SELF, canon, norm, show, strip_epochs
+from ..common import all_conds, conds_at, nshow, outer_field, paths, unclamped
+from ..expr import C, SELF, canon, norm, posform, show, strip_epochs
 from ..model import AnalysisError
 from ._setops import BLOOM_CTX, CMS_JOIN_CTX, SECOND, alloc_lengths, cell, combine_rule, is_full_range
 
@@ -39,10 +39,13 @@ def join_rule(prog, rep, ctx):
             rep.bad("C12.join-cells", where, f"range {nshow(idx)}", f"the loop covers {nshow(idx)}, not exactly range(width*depth)", e.where())
             okc = False
             continue
-        s = canon(("bin", "+", cell(SELF, "_bins", idx), cell(SECOND, "_bins", idx)))
-        v = canon(e.value)
-        cs = [canon(c) for c in conds_at(p, e)]
-        if v == s:
+        # positions are compared, not spellings: bins[i] with i the walk position and the element bound by zip / enumerate agree
+        pos = canon(posform(e.index))
+        own, other = ("sub", ("f", SELF, "_bins", 0), pos, 0), ("sub", ("f", SECOND, "_bins", 0), pos, 0)
+        s = canon(("bin", "+", own, other))
+        v = canon(posform(e.value))
+        cs = [canon(posform(c)) for c in conds_at(p, e)]
+        if v == s or unclamped(v) == s:
             seen_plain = True
         elif v == C(IMAX) and any(c == canon(("cmp", ">", s, C(IMAX))) or c == canon(("cmp", ">=", s, C(IMAX))) for c in cs):
             pass
@@ -52,6 +55,17 @@ def join_rule(prog, rep, ctx):
             rep.bad("C12.join-cells", where, f"store {nshow(e.value)}",
                     f"joined cell is {nshow(e.value)}; expected self cell + second cell at the same index (or the clamp constant under the overflow test)", e.where())
             okc = False
+    # a returning path that merges no cell at all is sound only where the operand's cells are known to be all zero
+    for p in ps:
+        if p.exit[0] != "return" or any(e.kind == "setelem" and outer_field(e.cont) == "_bins" for e in p.events) \
+                or any(c.atom[0] == "loop0" for c in p.conds) or any(c.loops for c in p.conds) or any(e.loops for e in p.events):
+            continue  # (a walk that skips a pinned cell is inside the merge loop)
+        anyc = ("call", ("g", "any"), (("f", SECOND, "_bins", 0),), ())
+        if not any((not c.truth) and strip_epochs(c.atom) == anyc for c in p.conds):
+            rep.bad("C12.join-cells", where, "return without merging", "join returns normally on a path that merges no cell and has not established that every cell of the operand is zero "
+                    "(an element total of 0 does not imply that: additions and removals of different keys cancel in the total only)", f.where(p.exit[2]) if p.exit[2] is not None else f.where())
+            okc = False
+            break
     if okc and seen_plain:
         rep.ok("C12.join-cells", f"{where}: bins[i] = bins[i] + second.bins[i] (clamped) over range(width*depth)")
     elif okc:
@@ -65,9 +79,14 @@ def join_rule(prog, rep, ctx):
             continue
         evs = [e for e in p.events if e.kind == "setfield" and e.name == TOTAL and e.base == SELF]
         if not evs:
+            # leaving the total alone is the same as adding the operand's total only where that total is known to be 0
+            ztot = ("cmp", "==", ("f", SECOND, TOTAL, 0), C(0))
+            if any(c.truth and strip_epochs(c.atom) in (ztot, ("cmp", "==", C(0), ("f", SECOND, TOTAL, 0))) for c in p.conds):
+                tot_ok = True
+                continue
             bad = ("no total update", "a normal path of join leaves the element total unchanged", f.where())
             break
-        if canon(evs[0].value) != s:
+        if unclamped(canon(evs[0].value)) != s:
             bad = (f"total = {nshow(evs[0].value)}", f"the total becomes {nshow(evs[0].value)}, expected own total + operand's total", evs[0].where())
             break
         tot_ok = True
